@@ -58,7 +58,8 @@ def run(tier, seed):
     scs = []
     for i in range(30 if quick else 300):
         d = rng.choice([1, 2, 3])
-        stream = [([F(rng.randrange(-3, 4), rng.choice([1, 2])) for _ in range(d)], rng.randrange(0, 3), None, True) for _ in range(rng.choice([4, 8]))]
+        stream = [([F(rng.randrange(-3, 4), rng.choice([1, 2])) for _ in range(d)], rng.randrange(0, 3),
+                   rng.choice([None, None, 1, 2, 4]), True) for _ in range(rng.choice([4, 8]))]
         scs.append(G.Scenario(cls=rng.choice(["sage", "pfi"]), d=d, names="idx", n_inner=rng.choice([1, 2, 4]), dynamic=True, alpha=F(1, 2),
                               storage=("interval", rng.choice([1, 2, 4])), imputer="joint", nlab=1, tables="spec:scalar", stream=stream,
                               numeric="float", loss_offset=2 ** 30, seed=rng.randrange(2 ** 31)))
